@@ -61,6 +61,9 @@ def data_members(body):
             st = cur
             cur = []
             i += 1
+            # `class unknown *mu_unknown;` / `struct X y;` (elaborated type specifier) declares a data member; `class X;` is a forward declaration
+            if st and st[0] in ("class", "struct", "enum") and len(st) >= 3 and "{}" not in st and "(" not in st:
+                st = st[1:]
             if not st or st[0] in SKIP_HEADS or "(" in st or "operator" in st:
                 continue
             if "static" in st:
